@@ -151,7 +151,10 @@ def check(case):
         if not d <= plain + tol:
             raise PropertyViolation("never-exceeds", "periodic distance %.12g > non-periodic %.12g" % (d, plain))
     # inverse flag
-    d_inv = float(lib("distance-inv", r1.distance_to, r2, box_vects=np.linalg.inv(box), inv=True))
+    if case["point"]:
+        d_inv = float(lib("distance-inv", r1.distance_to, r2, np.linalg.inv(box), True))        # flag given positionally
+    else:
+        d_inv = float(lib("distance-inv", r1.distance_to, r2, box_vects=np.linalg.inv(box), inv=True))
     if not abs(d_inv - d) <= tol:
         raise PropertyViolation("inverse-flag", "inv=True gives %.12g, box gives %.12g (box %r)" % (d_inv, d, case["box"]))
     # symmetry
